@@ -15,9 +15,9 @@ from .common import qmap
 PID = "C09"
 FUNCTIONS = ["Scalar._DoOperation number branches / __r*__ operators", "Array._DoOperation number and ndarray branches / __r*__ operators", "_ValueGenerator",
              "barril._util.types_.IsNumber", "Quantity.CreateEmpty", "UnitDatabase.Divide/FloorDivide with the empty quantity", "Array.__array_ufunc__ = None"]
-XS = ["s_restricted", "a_restricted", "s_m", "s_degC", "s_m2", "s_per_s", "a_list", "a_tuple", "a_np", "a_np_m2", "f_list", "f_np"]
+XS = ["s_unknown_cap", "a_unknown_cap", "f_unknown_cap_np", "s_restricted", "a_restricted", "s_m", "s_degC", "s_m2", "s_per_s", "a_list", "a_tuple", "a_np", "a_np_m2", "f_list", "f_np"]
 OPS = ["k*x", "x*k", "x/k", "x//k", "x+k", "k+x", "x-k", "k-x", "k/x", "k//x"]
-KS = ["float_edge", "sym", "int", "np.float64", "np.float32", "np.int64", "ndarray", "sym_ndarray", "list"]
+KS = ["float_edge", "sym", "int", "np.float64", "np.float32", "np.int64", "np.uint8", "np.uint64", "np.int16", "ndarray", "ndarray0d", "sym_ndarray", "list"]
 BOUNDS = {
     "quick": "values and python-float k: all reals; x in %s; all ten operators in both operand orders; k kinds: symbolic python float, python int 3 and -2, "
              "numpy.float64/float32/int64 scalars and float64 ndarrays from a concrete set (with concrete amounts), symbolic object-ndarray; containers of length 0 and 2" % XS,
@@ -34,7 +34,7 @@ def items(tier, seed):
     for x in XS:
         for op in OPS:
             for k in KS:
-                if k in ("ndarray", "sym_ndarray", "list") and x.startswith("s_"):
+                if k in ("ndarray", "ndarray0d", "sym_ndarray", "list") and x.startswith("s_"):
                     continue
                 if k == "list":
                     continue  # a python list is not a number/ndarray operand
@@ -43,6 +43,8 @@ def items(tier, seed):
                 ns = [0, 2] if tier == "quick" else [0, 1, 2, 3]
                 for n in (ns if not x.startswith("s_") else [1]):
                     if (x.startswith("f_") and n < 2) or (n == 0 and (x in ("a_np_m2",) or k in ("ndarray", "sym_ndarray"))):
+                        continue
+                    if k in ("np.uint8", "np.uint64", "np.int16") and x in ("s_m2", "s_per_s", "a_np_m2", "s_restricted", "a_restricted"):
                         continue
                     out.append({"x": x, "op": op, "k": k, "n": n})
     out.append({"x": "s_m", "op": "k*x", "k": "sym", "n": 1, "canary": True})
@@ -62,7 +64,7 @@ def _mk(cfg, V):
     from barril.units import Array, FixedArray, Scalar
 
     name, n = cfg["x"], cfg["n"]
-    conc = cfg["k"] in ("np.float64", "np.float32", "np.int64", "ndarray", "float_edge")
+    conc = cfg["k"] in ("np.float64", "np.float32", "np.int64", "np.uint8", "np.uint64", "np.int16", "ndarray", "ndarray0d", "float_edge")
     CONC = {"x0": 1.0, "x1": 6.0, "x2": 0.3} if cfg["k"] == "float_edge" else CONCRETE
     xs = [CONC["x%d" % i] if conc else V["x%d" % i] for i in range(3)][:(n if name.startswith("a_") else max(n, 1))]
 
@@ -72,6 +74,15 @@ def _mk(cfg, V):
     if name in ("s_restricted", "a_restricted"):
         cat, unit = _restricted()
         return (Scalar(xs[0], unit, cat), xs[:1]) if name.startswith("s_") else (Array(list(xs), unit, cat), xs)
+    if name.endswith("unknown_cap") or name == "f_unknown_cap_np":
+        from barril.units import GetUnknownQuantity
+
+        q = GetUnknownQuantity("Feet")
+        if name.startswith("s_"):
+            return Scalar(q, xs[0]), xs[:1]
+        if name.startswith("f_"):
+            return FixedArray(len(xs), q, arr(xs)), xs
+        return Array(q, list(xs)), xs
     if name == "s_m":
         return Scalar(xs[0], "m"), xs[:1]
     if name == "s_degC":
@@ -148,6 +159,14 @@ def _k(cfg, V, n):
         return numpy.float32(1.5), [1.5] * n
     if k == "np.int64":
         return numpy.int64(-4), [-4] * n
+    if k == "np.uint8":
+        return numpy.uint8(3), [3] * n
+    if k == "np.uint64":
+        return numpy.uint64(5), [5] * n
+    if k == "np.int16":
+        return numpy.int16(-2), [-2] * n
+    if k == "ndarray0d":
+        return numpy.array(2.0), [2.0] * n
     if k == "ndarray":
         vals = [2.0, -0.5, 8.0][:n]
         return numpy.array(vals, dtype=float), vals
